@@ -10,7 +10,7 @@ input layouts are byte-for-byte unchanged and that the result is still the same 
 are dropped (C12), and that the call neither crashed nor hung (C12)."""
 import json, os, random, time
 
-from . import layouts as L, refops as R, run as nrun
+from . import layouts as L, refops as R, run as nrun, forthref as FR
 
 VERIF = os.path.normpath(os.path.join(os.path.dirname(os.path.abspath(__file__)), "..", ".."))
 
@@ -1196,6 +1196,53 @@ def fam_partitioned(rng):
     return Case("%s repartition %d %s %s" % (head, m, " ".join(map(str, nstops)), lay.tokens()), chk, {"value": vals})
 
 
+def fam_forth(rng):
+    """C19: a random small AwkwardForth program (stack/arithmetic/comparison/bitwise words, if/else, do/loop/+loop with
+    i, begin/until, begin/while/repeat, user words with exit, variables, typed little/big-endian, repeated, varint and
+    zigzag reads to the stack or straight to an output, seek/skip/len/pos/end, typed output writes, +<-, rewind, halt,
+    pause) run on the real ForthMachine64 -- in one call resumed after every pause, single-stepped, or mixed, with output
+    buffers starting at 1, 2 or 1024 items -- ends with the error status, stack, variables, outputs and input positions
+    the documented semantics (reference interpreter akvlib/nat/forthref.py) give"""
+    for _ in range(20):
+        src, inputs = FR.gen_program(rng)
+        m = FR.Machine(src, inputs)
+        try:
+            err = m.run()
+        except FR.Unsupported:
+            continue
+        except RecursionError:
+            continue
+        break
+    else:
+        return None
+    # `exit` is single-stepped differently from run() (KF-C19-exit-step): such programs are only run()
+    mode = "run" if " exit " in (" " + src + " ") else rng.choice(["run", "step", "mixed"])
+    out_initial, out_resize = rng.choice([(1, 150), (2, 200), (1024, 150), (1, 110)])
+    exp_err = FR.ERR[err]
+    hx = lambda b: (b.hex() or "-")
+    line = "forth %s 1024 1024 %d %d %s %d %s" % (mode, out_initial, out_resize, hx(src.encode()), len(inputs),
+                                                  " ".join("%s %s" % (k, hx(v)) for k, v in inputs.items()))
+    what = "program `%s` on input %s (%s, output buffers from %d items)" % (src, {k: list(v) for k, v in inputs.items()}, mode, out_initial)
+
+    def check(r):
+        if r.status != "OK":
+            return ("value", "%s: %s" % (what, r))
+        gerr, gstack, gvars, gouts, gpos = r.value
+        if gerr != exp_err:
+            return ("value", "%s: error status %d, documented semantics give %d (%s)" % (what, gerr, exp_err, err))
+        if gvars != m.variables:
+            return ("value", "%s: variables %r, expected %r" % (what, gvars, m.variables))
+        exp_outs = {k: v[1] for k, v in m.outputs.items()}
+        if not loose(gouts, exp_outs) or list(gouts) != sorted(exp_outs):
+            return ("value", "%s: outputs %r, expected %r" % (what, gouts, exp_outs))
+        if gpos != m.pos:
+            return ("value", "%s: input positions %r, expected %r" % (what, gpos, m.pos))
+        if exp_err == 0 and gstack != m.stack:
+            return ("value", "%s: final stack %r, expected %r" % (what, gstack, m.stack))
+        return None
+    return Case(line, check, {"source": src})
+
+
 # family -> (generator, properties whose statement the VALUE contract comes from)
 FAMILIES = {
     "reduce_ragged": (fam_reduce_ragged, ["C03"]),
@@ -1220,6 +1267,7 @@ FAMILIES = {
     "virtual": (fam_virtual, ["C18"]),
     "virtual_enforce": (fam_virtual_enforce, ["C18"]),
     "partitioned": (fam_partitioned, ["C18"]),
+    "forth": (fam_forth, ["C19"]),
     "builder": (fam_builder, ["C14"]),
     "builder_malformed": (fam_builder_malformed, ["C14"]),
     "valid_reject": (fam_valid_reject, ["C11"]),
